@@ -182,3 +182,14 @@ Definition chk_mean (h : hist Qc) (got : Qc) (exact : bool) : bool :=
 Definition chk_variance (h : hist Qc) (got : Qc) (exact : bool) : bool :=
   if exact then Veqb (variance h) got
   else close 36 got (variance h) (variance h + mean h * mean h)%Qc.
+
+(* ---- C09 ---- *)
+From Dyce Require Export Base.ZOrd Model.OrderStat.
+Definition zhist_eqb (a b : hist Z) : bool :=
+  list_eqb (pair_eqb Z.eqb Z.eqb) (filter (fun oc => negb (snd oc =? 0)) a) (filter (fun oc => negb (snd oc =? 0)) b).
+Definition chk_order_stat (h : hist Qc) (qs : list (Z * Z)) (expected : list (res (hist Qc))) : bool :=
+  list_eqb (res_eqb cnt_eqb) (os_run VO [] h qs) expected
+  && list_eqb (res_eqb cnt_eqb) (map (fun q => order_stat VO h (fst q) (snd q)) qs) expected.
+Definition chk_exactly (h : hist Qc) (o : Qc) (n k : nat) (expected : Z) : bool := exactly_k VO h o n k =? expected.
+Definition chk_appearances (dice : list (hist Qc)) (o : Qc) (expected : hist Z) : bool :=
+  zhist_eqb (appearances VO (mkP VO dice) o) expected.
